@@ -144,6 +144,33 @@ func init() {
 		return TimeV{Sec: tf.Add(t.Sec, secs), Loc: t.Loc}
 	}
 	stubs["time.Date"] = func(e *Exec, fr *Frame, fn *ssa.Function, a []Value) Value {
+		// fully concrete arguments: the real function
+		allConst := true
+		var n [7]int
+		for i := 0; i < 7; i++ {
+			v, ok := constInt(a[i].(*Term))
+			if !ok {
+				allConst = false
+				break
+			}
+			n[i] = v
+		}
+		if allConst {
+			p := a[7].(Ptr)
+			if p.Obj == nil {
+				e.fail("panic", "panic:explicit", e.siteOf(fr), "time: missing Location in call to Date", "")
+			}
+			loc := e.locOf(p)
+			l := time.UTC
+			if loc != nil {
+				l = loc.Aux.(*time.Location)
+			}
+			t := time.Date(n[0], time.Month(n[1]), n[2], n[3], n[4], n[5], n[6], l)
+			if t.Nanosecond() != 0 {
+				e.unsupported("time.Date with nanoseconds")
+			}
+			return TimeV{Sec: e.tf.Int(t.Unix()), Loc: loc}
+		}
 		for _, x := range a[3:7] {
 			if n, ok := constInt(x.(*Term)); !ok || n != 0 {
 				e.unsupported("time.Date with a time of day")
